@@ -296,3 +296,63 @@ def expand(func_node, expr, depth=3) -> str:
             break
         cur = new
     return norm(cur)
+
+
+def expand_ast(func_node, expr, depth=3):
+    """expand() as an expression tree."""
+    return ast.parse(expand(func_node, expr, depth), mode="eval").body
+
+
+def reaching_values(func_node, cfg: CFG, use: Node, expr):
+    """The expressions a use may evaluate to, with the branch conditions under which each is chosen.
+
+    A name assigned once expands to its definition; a name assigned on several branches (`if c: x = A else: x = B`)
+    yields one (expanded value, conditions dominating that assignment + conditions dominating the use) pair per
+    assignment; a conditional expression `A if c else B` yields both arms with c true / false.  Flow-insensitive: every
+    assignment of the name in the function counts, which over-approximates the values (never drops one)."""
+    use_conds = list(cfg.dominating_conditions(use, derive=True))
+    out = []
+
+    def go(e, conds, depth):
+        if isinstance(e, ast.IfExp) and depth < 4:
+            from .cfg import _facts
+
+            go(e.body, conds + list(_facts(e.test, True)), depth + 1)
+            go(e.orelse, conds + list(_facts(e.test, False)), depth + 1)
+            return
+        if isinstance(e, ast.Name) and depth < 4:
+            defs = []
+            for n in cfg.real_nodes():
+                if n.kind == "stmt" and isinstance(n.ast, ast.Assign) and any(isinstance(t, ast.Name) and t.id == e.id for t in n.ast.targets):
+                    defs.append(n)
+            if defs:
+                for d in defs:
+                    go(d.ast.value, conds + list(cfg.dominating_conditions(d, derive=True)), depth + 1)
+                return
+        full = expand_ast(func_node, e)
+        inner = next((x for x in ast.walk(full) if isinstance(x, ast.IfExp)), None)
+        if inner is not None and depth < 6:
+            from .cfg import _facts
+
+            for arm, truth in ((inner.body, True), (inner.orelse, False)):
+                variant = _replace(full, inner, arm)
+                go(variant, conds + list(_facts(inner.test, truth)), depth + 1)
+            return
+        out.append((full, conds))
+
+    def _replace(tree, old, new):
+        import copy
+
+        # transform a copy in which `old` is located by its position in the walk
+        idx = [i for i, x in enumerate(ast.walk(tree)) if x is old][0]
+        cp = copy.deepcopy(tree)
+        target = list(ast.walk(cp))[idx]
+
+        class Swap(ast.NodeTransformer):
+            def visit_IfExp(self, node):
+                return copy.deepcopy(new) if node is target else self.generic_visit(node)
+
+        return ast.fix_missing_locations(Swap().visit(cp))
+
+    go(expr, use_conds, 0)
+    return out
